@@ -498,8 +498,29 @@ func c13Positive(tb ev.TB, rec *ev.Rec, dir string, d *docSet, classes ...string
 
 func c13Closure(tb ev.TB, rec *ev.Rec, dir string, d *docSet) {
 	// no ADVANCED_MODE targets here, so that a rejection is attributable to the planted reference
-	d.Docs[fRoute] = replaceAdvancedMode(d.Docs[fRoute], "cluster_0").(obj)
+	rd := d.Docs[fRoute]
+	if i := indexKey(rd, "BasicRule"); i >= 0 {
+		rd[i].V = replaceAdvancedMode(rd[i].V, "cluster_0")
+	}
 	d.UsesAdv = false
+	for _, k := range d.Dangling {
+		if k == "adv-cluster-ADVANCED_MODE" {
+			// ADVANCED_MODE is only meaningful as the target of a BASIC rule; as the cluster of an
+			// advanced rule it is just the name of a cluster that does not exist
+			rule := obj{{"Cond", `req_path_in("/dangling-adv-mode", false)`}, {"ClusterName", advancedMode}}
+			if i := indexKey(rd, "ProductRule"); i >= 0 {
+				adv := rd[i].V.(obj)
+				if j := indexKey(adv, "product_0"); j >= 0 {
+					adv[j].V = append(adv[j].V.([]any), rule)
+				} else {
+					rd[i].V = append(adv, kv{"product_0", []any{rule}})
+				}
+			} else {
+				rd = append(rd, kv{"ProductRule", obj{{"product_0", []any{rule}}}})
+			}
+		}
+	}
+	d.Docs[fRoute] = rd
 	docs := d.bytes()
 	r := loadSet(dir, docs)
 	fpv := string(docs[0]) + string(docs[1]) + string(docs[2]) + string(docs[4])
@@ -690,7 +711,7 @@ func c13Negative(rt *rapid.T, rec *ev.Rec, dir string) {
 	}
 }
 
-var danglingKinds = []string{"adv-product", "basic-product", "adv-cluster", "basic-cluster", "vip-product", "default-product", "gslb-cluster"}
+var danglingKinds = []string{"adv-product", "basic-product", "adv-cluster", "basic-cluster", "vip-product", "default-product", "gslb-cluster", "adv-cluster-ADVANCED_MODE"}
 
 func TestC13(t *testing.T) {
 	rec := ev.New("C13", "three generators over the six documented files (host_rule, vip_rule, route_rule incl. BasicRule with ADVANCED_MODE targets, cluster_conf with every documented optional field, gslb, cluster_table): (a) positive sets must load through each *Load function, LoadServerDataConf and BalTable.Init; (b) sets with one or two planted dangling references (product in route/vip/default not in host table, cluster in route not in cluster_conf, gslb cluster not in cluster_table) must be rejected; (c) one structural mutation (drop / wrong type / null / huge number / duplicate key / renamed key / inserted null element) or truncation of one file, all loaders run under recover. non-trivial: (a) >=1 optional documented feature used, (b) always, (c) mutation keeps the JSON well-formed; distinct by file contents")
